@@ -345,7 +345,7 @@ def engine_stream(ck, cases):
     `run base rewritten = run base original` evaluated inside Coq.  Validates the rewrite ENGINE against the
     same definitions the theorems are about (a wrong engine would otherwise look like a compiler defect)."""
     exprs, meta = [], []
-    cap = ck.n(400, 4000)
+    cap = 400      # per batch
     for c in cases:
         if not isinstance(c.program, P.Program) or not c.model_exprs:
             continue
@@ -379,7 +379,7 @@ def beta_stream(ck, cases):
     function F and call C that replaced expression E, `beta F C` computed inside Coq must be exactly E"""
     items = [(c, b) for c in cases for b in c.betas]
     ck.rng.shuffle(items)
-    items = items[: ck.n(600, 6000)]
+    items = items[:600]     # per batch
     vals = coq_eval(BETA_HEADER, [b[2] for _, b in items])
     for (c, (label, text, expr)), v in zip(items, vals):
         ck.count("beta", expr)
@@ -391,19 +391,11 @@ def beta_stream(ck, cases):
 
 # ------------------------------------------------------------------------------ main
 
-def run():
-    ck = Check("C06", level="proof")
-    pr = ck.prove()
-    broken = not pr["ok"]
-    rng = ck.rng
-    mult = 3 if broken else 1
-
-    t0 = time.time()
+def gen_batch(ck, rng, n_base, n_two, n_dir, site_hist):
+    """base programs with all their rewritten variants"""
     cases = []
     g = W.RGen(rng, max_steps=6)
-    n_base = ck.n(320, 2500) * mult
-    n_chain2, n_chain3 = ck.n(2, 8), ck.n(2, 8)
-    site_hist = {}
+    n_chain2 = n_chain3 = ck.n(2, 4)
     for bi in range(n_base):
         pg = g.program()
         insts = [P.gen_instance(rng, max_rows=6, min_rows=3), P.gen_instance(rng, max_rows=4, min_rows=1)]
@@ -412,35 +404,34 @@ def run():
         c = make_case(pg, insts)
         rp = W.from_program(pg)
         # depth 1: every applicable site of every kind
-        for lab, q in W.all_sites(rp, rng, func_per_slot=ck.n(2, 7), trfunc_per_site=ck.n(1, 5), trfunc_maxlen=ck.n(2, 3)):
+        for lab, q in W.all_sites(rp, rng, func_per_slot=ck.n(2, 4), trfunc_per_site=ck.n(1, 3), trfunc_maxlen=ck.n(2, 3)):
             k = W.kind_of(lab)
             if c.add(k, lab, q.prql(), q.coq() if k in ("filter", "identity") else None,
                      W.coq_func_call(*q.last_func) if (k == "func" and q.last_func) else None):
                 site_hist[k] = site_hist.get(k, 0) + 1
-        # module moves need a declaration: every declaration produced by a let / function rewrite, moved
+        # module moves need a declaration: declarations produced by a let / function rewrite, moved (plain, nested, with decoy)
         l1 = W.sites_let(rp, rng, ("let",))
         f1 = W.sites_func(rp, rng, per_slot=1, variants=["pos", "named-pass", "piped"])
         t1_ = W.sites_trfunc(rp, rng, per_site=1, variants=["pos"], maxlen=2)
         firsts = [rng.choice(x) for x in (l1, f1, t1_) if x] + ([rng.choice(l1)] if l1 else [])
         if ck.thorough:
-            firsts = l1 + f1[:4] + t1_[:3]
+            rng.shuffle(l1); rng.shuffle(f1); rng.shuffle(t1_)
+            firsts = l1[:4] + f1[:3] + t1_[:2]
         for lab, q in firsts:
             for lab2, q2 in W.sites_module(q, rng, depth2=ck.thorough or rng.random() < 0.5):
-                c.add("module", lab + "+" + lab2, q2.prql())
+                if c.add("module", lab + "+" + lab2, q2.prql()):
+                    site_hist["module"] = site_hist.get("module", 0) + 1
         # compositions of 2 and 3 rewrites at random sites
-        for _ in range(n_chain2):
-            q = W.random_chain(rp, rng, 2)
-            if len(q.trace) == 2:
-                c.add("compose", "+".join(q.trace), q.prql())
-        for _ in range(n_chain3):
-            q = W.random_chain(rp, rng, 3)
-            if len(q.trace) == 3:
-                c.add("compose", "+".join(q.trace), q.prql())
+        for n_, ln in ((n_chain2, 2), (n_chain3, 3)):
+            for _ in range(n_):
+                q = W.random_chain(rp, rng, ln)
+                if len(q.trace) == ln:
+                    c.add("compose", "+".join(q.trace), q.prql())
         cases.append(c)
 
     # two references to one let-table (append, self-join)
     g2 = W.RGen(rng, max_steps=4)
-    for _ in range(ck.n(90, 1200) * mult):
+    for _ in range(n_two):
         pg = g2.program()
         insts = [P.gen_instance(rng, max_rows=5, min_rows=2), P.gen_instance(rng, max_rows=3, min_rows=0)]
         cases += two_ref_cases(pg, insts, rng)
@@ -448,7 +439,7 @@ def run():
     # directed: declarations that refer to each other move into one module together (relative reference inside);
     # point-free transform functions (the relation parameter left implicit)
     g3 = W.RGen(rng, max_steps=5)
-    for _ in range(ck.n(25, 200)):
+    for _ in range(n_dir):
         pg = g3.program(n_steps=rng.randint(2, 5))
         insts = [P.gen_instance(rng, max_rows=5, min_rows=2)]
         c = make_case(pg, insts)
@@ -465,18 +456,35 @@ def run():
             c.add("pointfree", lab, q.prql())
         if c.variants:
             cases.append(c)
+    return cases
 
-    t1 = time.time()
-    comp, execd, model = run_all(cases)
-    t2 = time.time()
-    judge_cases(ck, cases, comp, execd, model)
-    t3 = time.time()
-    engine_stream(ck, cases)
-    beta_stream(ck, cases)
-    ck.coverage["seconds"] = {"generate": round(t1 - t0, 1), "compile+exec+reference": round(t2 - t1, 1), "judge": round(t3 - t2, 1), "engine": round(time.time() - t3, 1)}
+
+def run():
+    ck = Check("C06", level="proof")
+    pr = ck.prove()
+    broken = not pr["ok"]
+    rng = ck.rng
+    mult = 3 if broken else 1
+    site_hist, secs = {}, {"generate": 0.0, "compile+exec+reference": 0.0, "judge": 0.0, "engine+beta": 0.0}
+    n_bases = n_rewritten = 0
+    for batch in range(ck.n(1, 5) * mult):          # batches bound the memory of the thorough tier
+        t0 = time.time()
+        cases = gen_batch(ck, rng, ck.n(320, 300), ck.n(90, 200), ck.n(25, 40), site_hist)
+        t1 = time.time()
+        comp, execd, model = run_all(cases)
+        t2 = time.time()
+        judge_cases(ck, cases, comp, execd, model)
+        t3 = time.time()
+        engine_stream(ck, cases)
+        beta_stream(ck, cases)
+        for k, dt in zip(secs, (t1 - t0, t2 - t1, t3 - t2, time.time() - t3)):
+            secs[k] = round(secs[k] + dt, 1)
+        n_bases += sum(1 for c in cases if c.program.__class__ is P.Program and not c.base_text.count("append (") and "lk_1" not in c.base_text)
+        n_rewritten += sum(len(c.variants) for c in cases)
+    ck.coverage["seconds"] = secs
     ck.coverage["sites_by_kind"] = site_hist
-    ck.coverage["base_programs"] = n_base
-    ck.coverage["rewritten_programs"] = sum(len(c.variants) for c in cases)
+    ck.coverage["base_programs"] = n_bases
+    ck.coverage["rewritten_programs"] = n_rewritten
 
     if os.environ.get("VERIF_DEBUG"):
         import collections
